@@ -83,6 +83,11 @@ class Translator:
             if node.id in self.consts:
                 return self.const(self.consts[node.id])
             raise Untranslatable(f"name {node.id}")
+        if isinstance(node, ast.Attribute):
+            key = ast.unparse(node)
+            if key in self.consts:
+                return self.const(self.consts[key])
+            raise Untranslatable(f"attribute {key}")
         if isinstance(node, ast.UnaryOp):
             v = self.expr(node.operand, env)
             if isinstance(node.op, ast.USub):
@@ -155,6 +160,13 @@ class Translator:
             c = self.to_bool(self.expr(node.test, env))
             a, b = self.expr(node.body, env), self.expr(node.orelse, env)
             return self.merge(c, a, b)
+        if isinstance(node, ast.Call) and isinstance(node.func, ast.Name) and node.func.id == "isinstance" and len(node.args) == 2:
+            v = self.expr(node.args[0], env)
+            t = node.args[1]
+            names = [e.id for e in t.elts] if isinstance(t, ast.Tuple) else [t.id] if isinstance(t, ast.Name) else None
+            if names is None or any(n not in ("int", "float", "bool") for n in names):
+                raise Untranslatable("isinstance with " + ast.unparse(t))
+            return ("bool", z3.BoolVal(v[0] in names))
         if isinstance(node, ast.Call) and isinstance(node.func, ast.Name):
             fn = node.func.id
             args = [self.expr(a, env) for a in node.args]
@@ -209,6 +221,14 @@ class Translator:
         self.depth -= 1
         if res is None:
             raise Untranslatable("helper without return value")
+        return res
+
+    def function(self, fn, env):
+        """value returned by fn (statement-level translation) with its parameters bound by name in env (others unbound)"""
+        tree = ast.parse(textwrap.dedent(inspect.getsource(fn))).body[0]
+        res = self.block(tree.body, dict(env), None)
+        if res is None:
+            raise Untranslatable("function without return value")
         return res
 
     def block(self, stmts, env, _path):
